@@ -192,7 +192,17 @@ func c10GenArg(c *Ctx, p c10Param) (*VDesc, int) {
 				break
 			}
 		}
-		if wrong == nil { // everything conforms to a dynamic constraint
+		if near := c10NearMiss(c, ct); near != nil && !conformsDesc(near, p.T) && c.G(3) == 0 {
+			// a near miss: the constraint's own shape with the placeholder where the constraint names a type - the type
+			// of an empty collection nobody has decided the members of, of an unknown, of a null
+			switch {
+			case (near.K == KList || near.K == KSet || near.K == KMap) && near.Elem.K == KDynamic && c.G(2) == 0:
+				d = &VDesc{T: near} // known and empty
+			default:
+				d = &VDesc{T: near, St: StUnknown}
+			}
+			c.Probe("c10.near-miss-argument")
+		} else if wrong == nil { // everything conforms to a dynamic constraint
 			d = genKnown(c, ct, o)
 			kind = akConform
 		} else {
@@ -1051,4 +1061,35 @@ func injectedPanic(kind int, msg string, args []cty.Value) {
 		panic(c10PanicValue{msg})
 	}
 	panic(msg)
+}
+
+// c10NearMiss copies a concrete type with one element / member type replaced by the placeholder (nil when the type has
+// nothing to replace).
+func c10NearMiss(c *Ctx, t *TDesc) *TDesc {
+	switch t.K {
+	case KList, KSet, KMap:
+		n := *t
+		n.cached = nil
+		if t.Elem.K != KDynamic && (c.G(2) == 0 || t.Elem.K <= KBool) {
+			n.Elem = tDynamic
+			return &n
+		}
+		if in := c10NearMiss(c, t.Elem); in != nil {
+			n.Elem = in
+			return &n
+		}
+	case KTuple, KObject:
+		if len(t.Elems) == 0 {
+			return nil
+		}
+		n := *t
+		n.cached = nil
+		n.Elems = append([]*TDesc(nil), t.Elems...)
+		i := c.G(len(t.Elems))
+		if in := c10NearMiss(c, t.Elems[i]); in != nil {
+			n.Elems[i] = in
+			return &n
+		}
+	}
+	return nil
 }
